@@ -787,9 +787,11 @@ still waiting in the factory's mailbox -/
 structure PortOk (w : W) : Prop where
   qf : QF w
   bal : ∀ i, (portsOf w.env.log).countP (isAns i) + pendingPorts i w.inbox = (portsOf w.env.log).countP (isAsk i)
+  closed : w.exited = false → ∀ i, PEv.closed i ∉ portsOf w.env.log
 
 theorem PortOk.still {w w' : W} (h : PortOk w) (c : Mute w w') : PortOk w' :=
-  ⟨c.qf h.qf, fun i => by unfold pendingPorts; rw [c.ports h.qf, c.inbox h.qf]; exact h.bal i⟩
+  ⟨c.qf h.qf, fun i => by unfold pendingPorts; rw [c.ports h.qf, c.inbox h.qf]; exact h.bal i,
+   fun hx i => by rw [c.ports h.qf]; exact h.closed (by rw [← c.exited h.qf]; exact hx) i⟩
 
 theorem ans_replyOf (i : Nat) (j : Job) (b : Bool) :
     (replyOf j b).countP (isAns i) = ((portMsg (.dispatch j)).toList).countP (· == i) := by
@@ -828,7 +830,14 @@ theorem portOk_handleDispatch (w : W) (j : Job) (rest : List FMsg) (h : PortOk w
   have hq0 : QF ({ w with inbox := rest } : W) := h.qf
   obtain ⟨b, g⟩ := grow_dispatch ({ w with inbox := rest } : W) j
   have g2 := g.mute (mute_afterHandle _)
-  refine ⟨g2.qf hq0, fun i => ?_⟩
+  refine ⟨g2.qf hq0, fun i => ?_, fun hx i => ?_⟩
+  rotate_left
+  · have hh : ({ w with inbox := rest } : W).handleMsg (.dispatch j) = ({ w with inbox := rest } : W).dispatch j := rfl
+    rw [hh, g2.ports hq0]
+    intro hm
+    rcases List.mem_append.mp hm with h1 | h1
+    · exact h.closed (by rw [hh, g2.exited hq0] at hx; exact hx) i h1
+    · unfold replyOf at h1; split at h1 <;> simp at h1
   have hb := h.bal i
   unfold pendingPorts at hb ⊢
   rw [hin, portMsgs_cons, List.countP_append] at hb
@@ -867,7 +876,7 @@ theorem ask_closed (i : Nat) (l : List Nat) : (l.map PEv.closed).countP (isAsk i
 theorem portOk_tryFinishStop (w : W) (h : PortOk w) : PortOk w.tryFinishStop := by
   unfold W.tryFinishStop
   split
-  · refine ⟨h.qf, fun i => ?_⟩
+  · refine ⟨h.qf, fun i => ?_, fun hx => by cases hx⟩
     have hb := h.bal i
     unfold pendingPorts at hb ⊢
     show List.countP (isAns i) (portsOf ((w.inbox.foldl Env.dropMsg (w.env.emit (.hook .stopped))).killAll).log) +
@@ -879,10 +888,11 @@ theorem portOk_tryFinishStop (w : W) (h : PortOk w) : PortOk w.tryFinishStop := 
   · exact h
 
 theorem portOk_postStop (w : W) (h : PortOk w) : PortOk w.postStop := by
-  obtain ⟨h1, _, _⟩ := postStop_ports w
-  refine ⟨fun j hj => by simp [W.postStop] at hj, fun i => ?_⟩
-  rw [h1]
-  exact h.bal i
+  obtain ⟨h1, h2, _⟩ := postStop_ports w
+  refine ⟨fun j hj => by simp [W.postStop] at hj, fun i => ?_, fun hx i => ?_⟩
+  · rw [h1]
+    exact h.bal i
+  · rw [h1]; exact h.closed (by rw [← h2]; exact hx) i
 
 theorem portOk_loopStep (w w' : W) (h : PortOk w) (hl : w.loopStep = some w') : PortOk w' := by
   unfold W.loopStep at hl
@@ -894,7 +904,7 @@ theorem portOk_loopStep (w w' : W) (h : PortOk w) (hl : w.loopStep = some w') : 
     · split at hl
       · rename_i who rest _
         simp only [Option.some.injEq] at hl; subst hl
-        have h1 : PortOk ({ w with env := { w.env with sup := rest } } : W) := ⟨h.qf, h.bal⟩
+        have h1 : PortOk ({ w with env := { w.env with sup := rest } } : W) := ⟨h.qf, h.bal, h.closed⟩
         exact h1.still (mute_handleSupervisorEvt _ who)
       · split at hl
         · rename_i m rest hin
@@ -908,7 +918,7 @@ theorem portOk_loopStep (w w' : W) (h : PortOk w) (hl : w.loopStep = some w') : 
               | dispatch j => exact absurd rfl (hm' j)
               | _ => rfl
             have h1 : PortOk ({ w with inbox := rest } : W) := by
-              refine ⟨h.qf, fun i => ?_⟩
+              refine ⟨h.qf, fun i => ?_, h.closed⟩
               have hb := h.bal i
               unfold pendingPorts at hb ⊢
               rw [hin, portMsgs_cons, hpm] at hb
@@ -934,32 +944,32 @@ theorem portOk_runQ (fuel : Nat) (w : W) (h : PortOk w) : PortOk (W.runQ fuel w)
 
 theorem portOk_advanceTo (t fuel : Nat) (w : W) (h : PortOk w) : PortOk (W.advanceTo t fuel w) := by
   induction fuel generalizing w with
-  | zero => exact ⟨h.qf, h.bal⟩
+  | zero => exact ⟨h.qf, h.bal, h.closed⟩
   | succ fuel ih =>
     unfold W.advanceTo
     split
     · simp only
       apply ih
       apply portOk_runQ
-      have h1 : PortOk ({ w.setNow w.nextCalc with nextCalc := t + CALCULATE_FREQUENCY * 1000000 } : W) := ⟨h.qf, h.bal⟩
+      have h1 : PortOk ({ w.setNow w.nextCalc with nextCalc := t + CALCULATE_FREQUENCY * 1000000 } : W) := ⟨h.qf, h.bal, h.closed⟩
       exact h1.still (mute_send _ _ rfl)
-    · exact ⟨h.qf, h.bal⟩
+    · exact ⟨h.qf, h.bal, h.closed⟩
 
 theorem portOk_ask (w : W) (m : FMsg) (hm : portMsg m = none) (h : PortOk w) : PortOk (w.ask m) := by
   unfold W.ask
   split
-  · exact ⟨h.qf, h.bal⟩
+  · exact ⟨h.qf, h.bal, h.closed⟩
   · simp only
     have h1 := portOk_runQ RUN_FUEL _ (h.still (mute_send w m hm))
     split
-    · exact ⟨h1.qf, h1.bal⟩
+    · exact ⟨h1.qf, h1.bal, h1.closed⟩
     · exact h1
 
 theorem portOk_queries (w : W) (h : PortOk w) : PortOk w.queries := by
   unfold W.queries
   split
-  · exact ⟨h.qf, h.bal⟩
-  · have h0 : PortOk ({ w with answers := [] } : W) := ⟨h.qf, h.bal⟩
+  · exact ⟨h.qf, h.bal, h.closed⟩
+  · have h0 : PortOk ({ w with answers := [] } : W) := ⟨h.qf, h.bal, h.closed⟩
     exact portOk_ask _ _ rfl (portOk_ask _ _ rfl (portOk_ask _ _ rfl h0))
 
 theorem portsOf_disp_false (id key : Nat) : portsOf [Ev.dispatched id key false] = [] := rfl
@@ -976,7 +986,14 @@ theorem portOk_applyDispatch (w : W) (id key hash : Nat) (ttl : Option Nat) (acc
     have e0 : (w.emit (.dispatched id key acc)).stopped = w.stopped := rfl
     rw [e0]
     simp only [hst]
-    refine ⟨h.qf, fun i => ?_⟩
+    refine ⟨h.qf, fun i => ?_, fun hx i => ?_⟩
+    rotate_left
+    · show PEv.closed i ∉ portsOf (w.env.log ++ [Ev.dispatched id key acc])
+      rw [portsOf_append]
+      intro hm
+      rcases List.mem_append.mp hm with h1 | h1
+      · exact h.closed hx i h1
+      · cases acc <;> simp [portsOf_disp_false, portsOf_disp_true] at h1
     have hb := h.bal i
     unfold pendingPorts at hb ⊢
     show List.countP (isAns i) (portsOf (w.env.log ++ [Ev.dispatched id key acc])) +
@@ -1004,7 +1021,7 @@ theorem portOk_stepOp (w : W) (op : Op) (t0 tq te : Nat) (h : PortOk w) : PortOk
   have h4 : PortOk w4 := by rw [← hw4]; exact portOk_queries _ h3
   generalize hw5 : W.advanceTo te (advanceFuel w4 te) w4 = w5
   have h5 : PortOk w5 := by rw [← hw5]; exact portOk_advanceTo _ _ _ h4
-  have h6 : PortOk ({ w5 with lastWq := none } : W) := ⟨h5.qf, h5.bal⟩
+  have h6 : PortOk ({ w5 with lastWq := none } : W) := ⟨h5.qf, h5.bal, h5.closed⟩
   exact h6.still (mute_emit _ _ rfl)
 
 theorem portOk_runSteps (w : W) (steps : List Step) (h : PortOk w) : PortOk (w.runSteps steps) := by
@@ -1013,7 +1030,8 @@ theorem portOk_runSteps (w : W) (steps : List Step) (h : PortOk w) : PortOk (w.r
   | cons s rest ih => exact ih _ (portOk_stepOp w s.op s.t0 s.tq s.te h)
 
 theorem portOk_of_empty (w : W) (hq : w.queue = []) (hl : w.env.log = []) (hi : w.inbox = []) : PortOk w :=
-  ⟨(by intro j hj; rw [hq] at hj; cases hj), fun i => (by unfold pendingPorts; rw [hl, hi]; rfl)⟩
+  ⟨(by intro j hj; rw [hq] at hj; cases hj), fun i => (by unfold pendingPorts; rw [hl, hi]; rfl),
+   fun _ i => (by rw [hl]; simp [portsOf])⟩
 
 theorem portOk_init (c : CaseCfg) : PortOk (init c) := by
   unfold init
@@ -1029,7 +1047,7 @@ theorem portOk_init (c : CaseCfg) : PortOk (init c) := by
        nextAid := 0, stopSignal := false, stopped := false, inbox := [], blocked := false, armed := false,
        nextCalc := CALCULATE_FREQUENCY, answers := [], lastWq := none } : W) c.n
   have h1 := (portOk_of_empty _ rfl rfl rfl).still hq
-  have h2 : PortOk ({ (W.growPool _ c.n) with poolSize := c.n } : W) := ⟨h1.qf, h1.bal⟩
+  have h2 : PortOk ({ (W.growPool _ c.n) with poolSize := c.n } : W) := ⟨h1.qf, h1.bal, h1.closed⟩
   exact h2.still (mute_emit _ _ rfl)
 
 /-- ACCEPTANCE PORT, whole runs: for every case, every op sequence, every schedule of instants and every job id `i`, the
@@ -1040,6 +1058,13 @@ theorem port_conservation_run (c : CaseCfg) (steps : List Step) (i : Nat) :
     (portsOf ((init c).runSteps steps).env.log).countP (isAns i) + pendingPorts i ((init c).runSteps steps).inbox
       = (portsOf ((init c).runSteps steps).env.log).countP (isAsk i) :=
   (portOk_runSteps _ steps (portOk_init c)).bal i
+
+/-- a port is dropped unanswered only by the EXIT of the factory actor (its mailbox goes with it): while the factory has not
+exited no history contains `portClosed` -/
+theorem port_closed_only_at_exit_run (c : CaseCfg) (steps : List Step) (hx : ((init c).runSteps steps).exited = false) (i : Nat) :
+    Ev.portClosed i ∉ ((init c).runSteps steps).env.log := by
+  intro hm
+  exact (portOk_runSteps _ steps (portOk_init c)).closed hx i (List.mem_filterMap.mpr ⟨_, hm, rfl⟩)
 
 /-! ### the same counts on the history itself -/
 
@@ -1076,5 +1101,21 @@ theorem countP_ask (i : Nat) (log : List Ev) : (portsOf log).countP (isAsk i) = 
     cases ev with
     | dispatched a b c => cases c <;> simp [portsOf, portEv, isAsk, isPortDispatchEv] <;> omega
     | _ => simp [portsOf, portEv, isAsk, isPortDispatchEv]
+
+/-- replies proper (`None` / `Some(job)`) on ports of job `i` -/
+def isReplyEv (i : Nat) : Ev → Bool
+  | .reply k _ => k == i
+  | _ => false
+
+theorem countP_reply_eq (i : Nat) (log : List Ev) (h : ∀ k, Ev.portClosed k ∉ log) :
+    log.countP (isReplyEv i) = log.countP (isAnswerEv i) := by
+  induction log with
+  | nil => rfl
+  | cons ev l ih =>
+    have ih' := ih (fun k hm => h k (List.mem_cons_of_mem _ hm))
+    rw [List.countP_cons, List.countP_cons, ih']
+    cases ev with
+    | portClosed k => exact absurd (List.mem_cons_self ..) (h k)
+    | _ => rfl
 
 end Factory
